@@ -420,6 +420,21 @@ func runC07Swap(c *Ctx) {
 						continue
 					}
 					if ai == pj && aj == pi {
+						// both orders used in one function: a deliberate symmetry (swap, transpose), not a slip
+						both := false
+						eachCall(f, func(other ssa.CallInstruction) {
+							if other == call || staticCallee(other) != cal {
+								return
+							}
+							oa := other.Common().Args
+							if len(oa) == len(args) && argName(oa[i]) == pi && argName(oa[j]) == pj {
+								both = true
+							}
+						})
+						if both {
+							c.OK(call.Pos(), fn, fmt.Sprintf("call %s(... %s, %s ...)", cal.Name(), ai, aj), "the same function also calls it with the arguments in the declared order: the transposition is deliberate")
+							return
+						}
 						c.Bad(call.Pos(), fn, fmt.Sprintf("call %s(... %s, %s ...)", cal.Name(), ai, aj), fmt.Sprintf("argument %q is passed for parameter %q and %q for %q: the two arguments are transposed", ai, pi, aj, pj))
 						return
 					}
